@@ -148,15 +148,50 @@ pub fn spec_match(def: &[u8], cand: &[u8]) -> bool {
 // Response elements: independent encoders/decoders (IEEE 488.2 8.7)
 // ------------------------------------------------------------------------------------------
 /// Canonical NR1 text of an integer: optional '-', no leading zeros.  Returns the length used.
+/// Values of magnitude below 10^9 (everything the 8/16-bit obligations need) are computed in
+/// 32-bit arithmetic with a fixed number of steps; wider values fall back to 128-bit arithmetic.
 pub fn spec_dec(v: i128, buf: &mut [u8; 40]) -> usize {
+    if v > -1_000_000_000 && v < 1_000_000_000 {
+        return spec_dec32(v as i32, buf);
+    }
+    spec_dec_wide(v, buf)
+}
+/// 32-bit arithmetic, fixed 10 steps; requires |v| < 10^9.
+pub fn spec_dec32(v: i32, buf: &mut [u8; 40]) -> usize {
+    {
+        let neg = v < 0;
+        let mut m: u32 = if neg { (-(v as i64)) as u32 } else { v as u32 };
+        let mut tmp = [b'0'; 10];
+        let mut n = 0;
+        let mut i = 0;
+        while i < 10 {
+            if m > 0 || i == 0 {
+                tmp[i] = b'0' + (m % 10) as u8;
+                m /= 10;
+                n = i + 1;
+            }
+            i += 1;
+        }
+        let mut k = 0;
+        if neg {
+            buf[0] = b'-';
+            k = 1;
+        }
+        let mut i = 0;
+        while i < 10 {
+            if i < n {
+                buf[k + i] = tmp[n - 1 - i];
+            }
+            i += 1;
+        }
+        return k + n;
+    }
+}
+pub fn spec_dec_wide(v: i128, buf: &mut [u8; 40]) -> usize {
     let mut tmp = [0u8; 40];
     let mut n = 0;
     let neg = v < 0;
     let mut m: u128 = if neg { (-(v + 1)) as u128 + 1 } else { v as u128 };
-    if m == 0 {
-        tmp[0] = b'0';
-        n = 1;
-    }
     while m > 0 {
         tmp[n] = b'0' + (m % 10) as u8;
         m /= 10;
